@@ -79,6 +79,7 @@ type Outcome struct {
 	Fingerprint uint64
 	Policy      string
 	Tape        *Tape
+	Sched       []string
 }
 
 // PanicInRepo reports whether the first panic of the run was raised by code of
@@ -132,6 +133,9 @@ func (o *Outcome) Digest() string {
 	return fmt.Sprintf("%x", h.Sum(nil))[:24]
 }
 
+// SchedLog makes the scheduler record every decision in Outcome.Sched (debugging aid).
+var SchedLog = false
+
 // Sim is the state of the current run.
 type Sim struct {
 	mu     sync.Mutex
@@ -154,6 +158,8 @@ type Sim struct {
 	nextGroup int
 
 	out          *Outcome
+	stash        map[uintptr][]stashed
+	stashN       int
 	abort        bool
 	mainDone     bool
 	schedStopped bool
@@ -327,6 +333,13 @@ func (s *Sim) schedule() {
 		if pick != s.last {
 			s.out.Switches++
 			s.out.Fingerprint = (s.out.Fingerprint ^ (uint64(pick.site)<<20 | uint64(pick.ID))) * 0x100000001b3
+		}
+		if SchedLog {
+			names := ""
+			for _, t := range run {
+				names += fmt.Sprintf(" %d:%s@%d", t.ID, t.Name, t.site)
+			}
+			s.out.Sched = append(s.out.Sched, fmt.Sprintf("step %d t=%v pick %d:%s@%d(%s) of [%s ] ev=%d", s.out.Steps, time.Since(s.start), pick.ID, pick.Name, pick.site, pick.blocked, names, len(s.out.Events)))
 		}
 		s.last = pick
 		s.cur = pick
